@@ -47,6 +47,9 @@ pub enum Msg {
   Save { uri: usize },
   CodeAction { uri: usize },
   FixAll { uri: usize },
+  /// the editor's workspace folder changes (to the sibling directory or back); it tells the
+  /// server and reports the new folder from now on
+  SwitchWorkspace,
 }
 
 #[derive(Clone, Debug, Serialize, Deserialize, PartialEq)]
@@ -284,6 +287,7 @@ fn client_message(w: &LspWorld, m: &Msg, next_id: &mut i64) -> Value {
       *next_id += 1;
       json!({"jsonrpc":"2.0","id":*next_id,"method":"textDocument/codeAction","params":{"textDocument":{"uri":uri_of(&w.uris[*uri])},"range":{"start":{"line":0,"character":0},"end":{"line":0,"character":1}},"context":{"diagnostics":[],"only":["source.fixAll"]}}})
     }
+    Msg::SwitchWorkspace => json!({"jsonrpc":"2.0","method":"workspace/didChangeWorkspaceFolders","params":{"event":{"added":[],"removed":[]}},"agsim_switch":true}),
     Msg::FixAll { uri } => {
       *next_id += 1;
       json!({"jsonrpc":"2.0","id":*next_id,"method":"workspace/executeCommand","params":{"command":"ast-grep.applyAllFixes","arguments":[{"uri":uri_of(&w.uris[*uri]),"languageId":"x","version":1,"text":""}]}})
@@ -304,7 +308,12 @@ pub fn simulate(w: &LspWorld, script: Option<&Script>, seed: u64) -> SimResult {
   let mut res = SimResult::default();
   let mut chunk = Rng::stream(seed, "chunk");
   let mut fault = Rng::stream(seed, "fault");
-  let knobs = Knobs { feed_style: chunk.below(4), out_style: chunk.below(4), reply_mix: fault.below(4) };
+  let mut knobs = Knobs { feed_style: chunk.below(4), out_style: chunk.below(4), reply_mix: fault.below(4) };
+  if w.history.iter().any(|m| matches!(m, Msg::SwitchWorkspace)) {
+    // which folder a didOpen is judged against must be unambiguous: one message at a time,
+    // the editor reads everything and answers at once
+    knobs = Knobs { feed_style: 0, out_style: 0, reply_mix: 0 };
+  }
   let root = root_dir();
   std::env::set_current_dir(&root).expect("chdir");
   let pin = Rc::new(RefCell::new(Pipe::default()));
@@ -324,6 +333,8 @@ pub fn simulate(w: &LspWorld, script: Option<&Script>, seed: u64) -> SimResult {
   let mut pending_bytes: VecDeque<u8> = VecDeque::new();
   let mut script_pos = 0usize;
   let mut done = false;
+  // false: the project directory is the workspace folder; true: the sibling directory is
+  let ws_is_outside = std::cell::Cell::new(false);
 
   macro_rules! poll_until_quiet {
     () => {{
@@ -392,7 +403,8 @@ pub fn simulate(w: &LspWorld, script: Option<&Script>, seed: u64) -> SimResult {
                 };
                 res.script.replies.push(pol.clone());
                 let result = if method == "workspace/workspaceFolders" {
-                  json!([{"uri": format!("file://{}", root.display()), "name": "w"}])
+                  let folder = if ws_is_outside.get() { outside_dir() } else { root.clone() };
+                  json!([{"uri": format!("file://{}", folder.display()), "name": "w"}])
                 } else if method == "workspace/applyEdit" {
                   json!({"applied": true})
                 } else {
@@ -459,7 +471,14 @@ pub fn simulate(w: &LspWorld, script: Option<&Script>, seed: u64) -> SimResult {
         let (_, r) = delayed.remove(pos);
         pending_bytes.extend(frame(&r));
         took = true;
-      } else if let Some(m) = queue.pop_front() {
+      } else if let Some(mut m) = queue.pop_front() {
+        if m.get("agsim_switch").is_some() {
+          ws_is_outside.set(!ws_is_outside.get());
+          if let Some(o) = m.as_object_mut() {
+            o.remove("agsim_switch");
+          }
+          res.events.push(format!("switch-workspace outside={}", ws_is_outside.get()));
+        }
         let is_history = m.get("method").is_some();
         if is_history {
           for d in delayed.iter_mut() {
@@ -690,6 +709,8 @@ struct Session {
   open: bool,
   version: i32,
   text: String,
+  /// the document was inside the editor's workspace folder when it was opened
+  inside: bool,
 }
 
 /// expected diagnostics of (relative path, text) according to the CLI
@@ -770,10 +791,12 @@ pub fn check(w: &LspWorld, sim: &SimResult, known: &KnownFindings, met: &mut Vec
   // reference model: what the client sent
   let mut sessions: Vec<Session> = vec![Session::default(); w.uris.len()];
   let mut sent: Vec<BTreeMap<i32, Vec<String>>> = vec![BTreeMap::new(); w.uris.len()];
+  let mut ws_outside = false;
   for m in &w.history {
     match m {
+      Msg::SwitchWorkspace => ws_outside = !ws_outside,
       Msg::Open { uri, version, text } => {
-        sessions[*uri] = Session { open: true, version: *version, text: text.clone() };
+        sessions[*uri] = Session { open: true, version: *version, text: text.clone(), inside: w.uris[*uri].inside != ws_outside };
         sent[*uri].entry(*version).or_default().push(text.clone());
       }
       Msg::Change { uri, version, text } => {
@@ -840,7 +863,7 @@ pub fn check(w: &LspWorld, sim: &SimResult, known: &KnownFindings, met: &mut Vec
   // history clause: the last publish of every open, in-workspace document is its newest text
   for (ui, s) in sessions.iter().enumerate() {
     let u = &w.uris[ui];
-    if !s.open || !u.inside || !has_lang(&u.rel) {
+    if !s.open || !s.inside || !has_lang(&u.rel) {
       continue;
     }
     let exp = expected_from_cli(&w.project, &cli_path(u), &s.text, &mut cache)?;
@@ -871,7 +894,7 @@ pub fn check(w: &LspWorld, sim: &SimResult, known: &KnownFindings, met: &mut Vec
     }
   }
   // the CLI front ends agree with each other on the newest text of one document per history
-  if let Some((ui, sess)) = sessions.iter().enumerate().find(|(ui, s)| s.open && w.uris[*ui].inside && has_lang(&w.uris[*ui].rel)) {
+  if let Some((ui, sess)) = sessions.iter().enumerate().find(|(ui, s)| s.open && s.inside && w.uris[*ui].inside && has_lang(&w.uris[*ui].rel)) {
     if let Some(v) = frontends_check(w, &w.uris[ui], &sess.text)? {
       return Ok(Some(v));
     }
@@ -1118,6 +1141,7 @@ pub fn gen_world(seed: u64) -> LspWorld {
   let allow_large = !project.all_rules().iter().any(|x| x.id.starts_with("gen-") || x.id.starts_with("use-rg"));
   // protocol-valid history per URI, interleaved
   let mut history = vec![];
+  let switch_world = r.chance(0.1);
   let mut open = vec![false; nuri];
   let mut top = vec![0i32; nuri];
   let n = r.range(2, 14);
@@ -1158,6 +1182,7 @@ pub fn gen_world(seed: u64) -> LspWorld {
         // per-session reading diverge there (DESIGN.md 12.7).
         top[u] += 1;
       }
+      14 if switch_world => history.push(Msg::SwitchWorkspace),
       14 | 15 => history.push(Msg::Save { uri: u }),
       16 | 17 => history.push(Msg::CodeAction { uri: u }),
       _ => history.push(Msg::FixAll { uri: u }),
@@ -1369,7 +1394,7 @@ impl Simulation for C09Sim {
     if (seed & 0x3f) == 0 {
       r.sample = Some(json!({
         "uris": w.uris, "rules": w.project.all_rules().iter().map(|x| x.id.clone()).collect::<Vec<_>>(),
-        "history": w.history.iter().map(|m| match m { Msg::Open{uri,version,text} => format!("didOpen #{uri} v{version} ({} bytes)", text.len()), Msg::Change{uri,version,text} => format!("didChange #{uri} v{version} ({} bytes)", text.len()), Msg::Close{uri} => format!("didClose #{uri}"), Msg::Save{uri} => format!("didSave #{uri}"), Msg::CodeAction{uri} => format!("codeAction #{uri}"), Msg::FixAll{uri} => format!("executeCommand #{uri}") }).collect::<Vec<_>>(),
+        "history": w.history.iter().map(|m| match m { Msg::Open{uri,version,text} => format!("didOpen #{uri} v{version} ({} bytes)", text.len()), Msg::Change{uri,version,text} => format!("didChange #{uri} v{version} ({} bytes)", text.len()), Msg::Close{uri} => format!("didClose #{uri}"), Msg::Save{uri} => format!("didSave #{uri}"), Msg::CodeAction{uri} => format!("codeAction #{uri}"), Msg::FixAll{uri} => format!("executeCommand #{uri}"), Msg::SwitchWorkspace => "editor switches workspace folder".to_string() }).collect::<Vec<_>>(),
         "transport": sim.script.actions.iter().take(30).collect::<Vec<_>>(), "replies": sim.script.replies,
         "events": sim.events.iter().take(60).collect::<Vec<_>>(), "polls": sim.polls,
       }));
